@@ -9,6 +9,7 @@ Line protocol for C13:  `c13 <op> <type> <fmt> <message tokens…>`
 * `stamp <opm|oem|tdm> <TIME_SYSTEM> <scale> <clock µs> <off scale> <off TIME_SYSTEM>` → `<clock written> <label read back>`
 * `window <date µs> <duration µs> <start|median|stop>` → `<start> <stop>` of the maneuver read back | `none`
 * `form <kvn|xml> <form>` → `ok` | `err dump AttributeError`      (OEM writers and the form of the points)
+* `center <kvn|xml> <centre name, blanks as _>` → `<CENTER_NAME written> <frame name the readers rebuild>` (blanks as _)
 * `udkey <name>` → the user-defined name the KVN readers recover from the key the writers print | `none`
 * `kepl <0|1>` → what the OPM writers do with a Keplerian impulsive (0) / continuous (1) maneuver: `err dump AttributeError` | `zeros` | `dv`
 
@@ -219,6 +220,11 @@ def ext : List String → Option String
       | some (a, b) => toString a ++ " " ++ toString b
       | none => "none")
   | ["form", fmt, form] => some (if oemDumpForm fmt form then "ok" else "err dump AttributeError")
+  | ["center", fmt, name] =>
+    let us := fun (l : List Char) => l.map fun c => if c = '_' then ' ' else c
+    let su := fun (l : List Char) => String.ofList (l.map fun c => if c = ' ' then '_' else c)
+    let w := centerWrite (if fmt = "kvn" then Generated.kvnCenterPats else Generated.xmlCenterPats) (us name.toList)
+    some (su w ++ " " ++ su (centerRead w))
   | ["udkey", name] => some (match udKeyIn (udKeyOut name.toList) with
       | some k => String.ofList k
       | none => "none")
